@@ -293,6 +293,7 @@ fn scenario_strings(which: usize) -> (u64, Vec<V>) {
             streams: vec![],
             summary: enc::default_summary(),
             extra_pool_strings: vec![],
+            ghost_strings: vec![],
         }
     };
     let _ = text;
@@ -375,6 +376,7 @@ fn scenario_strings_and_refs(which: usize) -> (u64, Vec<V>) {
             streams: vec![],
             summary: enc::default_summary(),
             extra_pool_strings: vec![],
+            ghost_strings: vec![],
         }
     };
     let p0 = dec::decode(&enc::encode(&mk_db(0))).expect("decode").pool.len();
